@@ -40,12 +40,12 @@ def check(repo, res, tier):
     res.rule("R-KV", "theta / target names / state values are bound by matching positions and names")
     res.s_clauses = ["S1 R-ROWMATCH", "S2 R-COLUMNS", "S3 R-WIRE", "S4 R-KV"]
     res.n_clauses = ["value of the loss formula at the true solution / zero cost at the generating parameters (solver numerics)",
-                     "weight and spread broadcasting in _setWeight_or_spread (arithmetic over runtime shapes)",
                      "the kernels' formulas themselves (decided under C14)"]
     bl = repo.cls(M.M_LOSS, "BaseLoss")
     _rows(repo, res, bl)
     _columns(repo, res, bl)
     _wire(repo, res, bl)
+    _broadcast(repo, res, bl)
     _kv(repo, res, bl)
 
 
@@ -250,6 +250,52 @@ def _wire(repo, res, bl):
               "BaseLoss.__init__ does not derive _weight from state_weight and _spread_param from spread_param")
     ok = any(isinstance(m, ast.Assign) and any(is_self_attr(t, "_lossObj") for t in m.targets) and norm(m.value) == "self._setLossType()" for m in walk_no_nested(init.node))
     res.check(ok, "R-WIRE", init, "kernel-built", "the kernel is built by the (overridden) _setLossType()", "BaseLoss.__init__ does not call self._setLossType()")
+
+
+def _broadcast(repo, res, bl):
+    """_setWeight_or_spread: every accepted weight / spread form becomes an (observations x states) array whose
+    entry [t, s] is the value meant for observation t of state s"""
+    from ..core.symarr import SymArr, np_summaries
+    from ..core import algebra as A
+    f = bl.methods["_setWeight_or_spread"]
+    summ = np_summaries()
+
+    def cat(x, accept_booleans=False):
+        return x if isinstance(x, SymArr) else SymArr.of(x if isinstance(x, (list, tuple)) else [x])
+    summ["ode_utils.check_array_type"] = cat
+    summ["AssertionError"] = lambda *a: Tok("AssertionError")
+    n, p = 3, 2
+    c = A.sym("c")
+    per_state = SymArr.symbols("ws", (p,))
+    per_obs = SymArr.symbols("wt", (n,))
+    full = SymArr.symbols("wf", (n, p))
+    cases = [
+        ("scalar", (n, p, [c]), SymArr((n, p), [c] * (n * p))),
+        ("per-state vector", (n, p, per_state), SymArr((n, p), [per_state.flat[s_] for _t in range(n) for s_ in range(p)])),
+        ("full matrix", (n, p, full), full),
+        ("scalar, one state", (n, 1, [c]), SymArr((n, 1), [c] * n)),
+        ("per-observation vector, one state", (n, 1, per_obs), per_obs),
+    ]
+    for tag, (nn, pp, x), want in cases:
+        for is_w in (True, False):
+            try:
+                kind, out = Abs({}, {}, summ, Obj("Loss")).run_function(f.node, {"n": nn, "p": pp, "x": x if isinstance(x, SymArr) else list(x), "is_weights": is_w})
+            except Undecided as e:
+                res.undecided("R-WIRE", f, "broadcast(%s)" % tag, "outside the modelled subset: %s" % e)
+                continue
+            ok = kind == "return" and isinstance(out, SymArr) and out.size == want.size and all(a_ == b_ for a_, b_ in zip(out.flat, want.flat)) \
+                and (out.shape == want.shape or out.ndim == 1)
+            res.check(ok, "R-WIRE", f, "broadcast(%s,%s)" % (tag, "weights" if is_w else "spread"),
+                      "%s -> entry [t, s] is the value for observation t of state s" % tag,
+                      "%s is expanded to %s (%s), expected %s" % (tag, out.tolist() if isinstance(out, SymArr) else out, kind, want.tolist()), node=f.node)
+    # wrong sizes are rejected
+    for tag, (nn, pp, x) in (("wrong length", (n, p, SymArr.symbols("w", (4,)))), ("wrong matrix", (n, p, SymArr.symbols("w", (2, 3))))):
+        try:
+            kind, out = Abs({}, {}, summ, Obj("Loss")).run_function(f.node, {"n": nn, "p": pp, "x": x, "is_weights": True})
+            res.check(kind == "raise", "R-WIRE", f, "broadcast-rejects(%s)" % tag, "a %s weight array is rejected" % tag,
+                      "a %s weight array is accepted and becomes %s" % (tag, out), node=f.node)
+        except Undecided as e:
+            res.undecided("R-WIRE", f, "broadcast-rejects(%s)" % tag, str(e))
 
 
 def _kv(repo, res, bl):
